@@ -37,9 +37,10 @@ Definition kmem (k : key) (l : list key) : bool := existsb (key_eqb k) l.
 Inductive wsimple := WPlan (wisdom_only : bool) | WExport | WLog.
 Inductive wstmt := WDo (s : wsimple) | WImportThen (b : list wsimple) | WIfNoPlan (b : list wsimple).
 
-(** how the path of the wisdom file is built: `FSPath p(FSPath::datapath()); p.append("fftwisdom/" + name)` -
-    the only form the translator accepts - or a plain string (kept for the examples) *)
-Inductive pathform := PFSPathAppend | PPlainString.
+(** how the path of the wisdom file is built: `FSPath p(FSPath::datapath()); p.append("fftwisdom/" + name)`, or
+    `FSPath p(FSPath::datapath() + "fftwisdom/" + name)` (the constructor validates like append does) - the two forms the
+    translator accepts - or a plain string (kept for the examples) *)
+Inductive pathform := PFSPathAppend | PFSPathFull | PPlainString.
 
 Record prep := mkprep { pr_kinds : list string; pr_path : pathform; pr_body : list wstmt }.
 
@@ -91,10 +92,11 @@ Definition exec_stmt (k : key) (s : wstmt) (p : pst) : pst :=
   | WIfNoPlan b => if p_plan p then p else exec_simples k b p
   end.
 
-(** building the path: [mk] = FSPath::append creates the parent directory (read off src/IO/FSPath.cpp) *)
+(** building the path: [mk] = FSPath's constructor and FSPath::append create the parent directory (read off src/IO/FSPath.cpp) *)
 Definition path_effect (mk : bool) (f : pathform) (p : pst) : pst :=
   match f with
-  | PFSPathAppend => if mk then mkpst (mkfs true (fs_files (p_fs p))) (p_mem p) (p_plan p) (p_planned p) (p_logged p) (p_written p) else p
+  | PFSPathAppend | PFSPathFull =>
+      if mk then mkpst (mkfs true (fs_files (p_fs p))) (p_mem p) (p_plan p) (p_planned p) (p_logged p) (p_written p) else p
   | PPlainString => p
   end.
 
